@@ -438,15 +438,17 @@ class Choose(Sub):
 # MATCH
 
 POOLS = {'n': [1, 2, 3], 't': ['a', 'ab', 'B', 'a?'], 'b': ['a', '[a]', 'b'],
-         'm': [1, 'a', True, 0]}      # mixed: a text, a number and a logical in one array (a header above numbers)
+         'm': [1, 'a', True, 0],      # mixed: a text, a number and a logical in one array (a header above numbers)
+         'g': [1, None, 2, 'a']}      # gaps: blank cells among the items (positions count the blanks)
 LOOKUPS = {
     'n': [0, 1, 2, 3, 4, 2.5],
     't': ['a', 'A', 'ab', 'AB', 'aB', 'b', 'B', 'a?', 'A?', 'a*', '*', '?', '??', '*b', '?b', 'b*', '*?',
           'zz', 'z*', 'abc'],
     'b': ['a', '[a]', '[A]', 'b', '[a', '[*', '[?]', '?a?', '[ab]', 'zz'],
     'm': [1, 'a', 'A', True, False, 0, 2, 'b', '1', '*', 'TRUE'],
+    'g': [1, 2, 'a', 'A', 3, 'b'],
 }
-MAXLEN = {'quick': {'n': 4, 't': 4, 'b': 3, 'm': 3}, 'thorough': {'n': 6, 't': 5, 'b': 4, 'm': 4}}
+MAXLEN = {'quick': {'n': 4, 't': 4, 'b': 3, 'm': 3, 'g': 4}, 'thorough': {'n': 6, 't': 5, 'b': 4, 'm': 4, 'g': 5}}
 FLAT_DL = ('var', 'litc', 'lits', 'rngflat')
 NESTED_DL = ('rngrow', 'rngcol')
 
@@ -496,10 +498,12 @@ class MatchExact(Sub):
     min_classes = 3
 
     def cases(self, tier, unit):
-        for pool in ('n', 't', 'b', 'm'):
+        for pool in ('n', 't', 'b', 'm', 'g'):
             for n in range(1, MAXLEN[tier][pool] + 1):
                 for items in itertools.product(POOLS[pool], repeat=n):
                     for dl in FLAT_DL + NESTED_DL:
+                        if None in items and dl in ('litc', 'lits'):
+                            continue        # blanks are handed in by the host
                         yield [pool, list(items), dl]
 
     def one(self, env, pool, items, dl, xdl, x):
@@ -617,10 +621,12 @@ class IndexMatch(Sub):
     min_classes = 2
 
     def cases(self, tier, unit):
-        for pool in ('n', 't', 'b', 'm'):
+        for pool in ('n', 't', 'b', 'm', 'g'):
             for n in range(1, MAXLEN[tier][pool] + 1):
                 for items in itertools.product(POOLS[pool], repeat=n):
                     for dl in FLAT_DL + NESTED_DL:
+                        if None in items and dl in ('litc', 'lits'):
+                            continue        # blanks are handed in by the host
                         yield [pool, list(items), dl]
 
     def one(self, env, pool, items, dl, xdl, x):
@@ -655,7 +661,7 @@ class IndexMatch(Sub):
         out = []
         seen = []
         for x in items:
-            if x in seen:
+            if x in seen or x is None:       # a blank is not looked up
                 continue
             seen.append(x)
             for xdl in ('lit', 'var'):
